@@ -107,7 +107,10 @@ def make_coll(ek, elems, letters, variant):
     if ek in ("B", "AB"):
         cols["TRBV"] = ["TRBV2*01"] * n
         cols["CDR3B"] = b
-    df = pd.DataFrame(cols)
+    order = list(cols)
+    if variant % 4 >= 2:
+        order = order[::-1]                                 # CDR3B before CDR3A, V columns after: columns are found by name
+    df = pd.DataFrame({c: cols[c] for c in order})
     if variant % 2:
         df.index = [f"t{i}" for i in range(n)][::-1]
     return df
